@@ -245,18 +245,26 @@ def state_symbols(ts, is_input):
     return sorted(n for n in symx.consts_of(ts) if not is_input(n))
 
 
-def independence(u, label, runs, is_input, mk_cex, sample=False):
+def independence(u, label, runs, is_input, mk_cex, sample=False, is_ref=None):
     """*runs*: list of (H, sig, terms, tag) of completed paths (exceptions
     included: sig = 'raise:<Type>', terms = []).  For every unordered pair
     (including a path with itself) prove that the two results agree whenever
-    both path conditions hold, the second one with renamed pre-state."""
+    both path conditions hold, the second one with renamed pre-state.
+    *is_ref*: when given, only pairs with at least one *reference* run (a run
+    from the fresh state) are compared; every request has a reference run, so
+    agreement of all pairs follows by transitivity of equality."""
     ren = Renamer(is_input)
     primed = [(ren(H), ren(ts)) for H, _sig, ts, _tag in runs]
+    ids = [set(c.get_id() for c in H) for H, _s, _t, _g in runs]
     n_state = 0
     for i, (H, sig, ts, tag) in enumerate(runs):
         st = state_symbols(list(H) + list(ts), is_input)
         n_state = max(n_state, len(st))
-        for j in range(i, len(runs)):
+        if is_ref is not None and not is_ref(i):
+            continue
+        for j in range(len(runs)):
+            if j < i and (is_ref is None or is_ref(j)):
+                continue        # unordered pairs: (j, i) was done from j
             H2, ts2 = primed[j]
             sig2, tag2 = runs[j][1], runs[j][3]
             if i == j and not st:
@@ -264,15 +272,33 @@ def independence(u, label, runs, is_input, mk_cex, sample=False):
                 u.r["obligations"] += 1
                 u.r["discharged"] += 1
                 continue
+            if i != j and _contradictory(ids[i], H2):
+                # the two path conditions contain c and Not(c) for a condition over
+                # request inputs only: no common request, nothing to compare
+                u.r["obligations"] += 1
+                u.r["discharged"] += 1
+                u.r["pairs_without_common_request"] = u.r.get("pairs_without_common_request", 0) + 1
+                continue
             if sig != sig2 or len(ts) != len(ts2):
                 phi = z3.BoolVal(False)
             else:
                 eqs = [a == b for a, b in zip(ts, ts2) if a.get_id() != b.get_id()]
                 phi = z3.And(*eqs) if eqs else z3.BoolVal(True)
             name = "%s[%s|%s]" % (label, tag, tag2)
-            u.prove(name, phi, list(H) + list(H2), mk_cex(i, j), abstract=True,
+            hyps = list(H) + list(H2)
+            u.prove(name, phi, hyps, mk_cex(i, j, hyps, phi), abstract=True,
                     sample=sample and i == 0 and j == 0)
     return n_state
+
+
+def _contradictory(ids, H2):
+    for c in H2:
+        if z3.is_not(c):
+            if c.arg(0).get_id() in ids:
+                return True
+        elif z3.Not(c).get_id() in ids:
+            return True
+    return False
 
 
 # --------------------------------------------------------------------------
@@ -286,14 +312,18 @@ def _fresh_array(shape, prefix="mem"):
     return a
 
 
+def _symbolic_mode():
+    return bool(symx._CURRENT)
+
+
 def _py_empty(shape, dtype=float, *a, **kw):
-    if npshim._is_float_dtype(dtype) or np.dtype(dtype) == object:
+    if _symbolic_mode() and (npshim._is_float_dtype(dtype) or np.dtype(dtype) == object):
         return _fresh_array(shape)
     return np.empty(shape, dtype, *a, **kw)
 
 
 def _py_zeros(shape, dtype=float, *a, **kw):
-    if npshim._is_float_dtype(dtype):
+    if _symbolic_mode() and npshim._is_float_dtype(dtype):
         out = np.empty(shape, dtype=object)
         out[...] = Sym(symx.rat(0))
         return out
